@@ -80,6 +80,10 @@ func (p *pool) modeFor(what string, key uint64, idx int) mode {
 		if h%8 == 3 && idx == int(h/8)%p.providers {
 			return mNever
 		}
+		// ... and in one call out of sixteen a second one does not answer either
+		if h%16 == 3 && idx == (int(h/8)+1)%p.providers {
+			return mNever
+		}
 		if h%8 == 5 && idx == int(h/8)%p.providers {
 			return mHangCtx
 		}
